@@ -194,7 +194,7 @@ def run_job(job):
         COUNTER[0] += 1
         if sl and (COUNTER[0] - 1) % sl[1] != sl[0]:
             return  # decided by a sibling job (paths are split round-robin across jobs)
-        r, m = bv.check(list(pc) + list(assumptions), claim, timeout_ms=1200000)
+        r, m = bv.check(list(pc) + list(assumptions), claim, timeout_ms=3000000)
         wit = None
         if m is not None:
             wit = {k: bv.model_int(m, BV.lift(v)) for k, v in vars_.items()}
@@ -216,7 +216,7 @@ def run_job(job):
             bv.CURRENT.assume(valid(X2, Y2, Z2))
             return (X1, Y1, Z1, X2, Y2, Z2), any_pt._add(X1, Y1, Z1, X2, Y2, Z2, p)
 
-        for pc, (ins, (X3, Y3, Z3)) in bv.Explorer().explore(fn):
+        for pc, (ins, (X3, Y3, Z3)) in bv.Explorer(timeout_ms=180000, unknown_is_feasible=True).explore(fn):
             X1, Y1, Z1, X2, Y2, Z2 = ins
             A = []
             P = ref.affine_of(ext(X1), ext(Y1), ext(Z1), "1", A)
@@ -232,7 +232,7 @@ def run_job(job):
                     return (X1, Y1, Z1), any_pt._double(X1, Y1, Z1, p, a)
                 return (X1, Y1, Z1), any_pt._double_with_z_1(X1, Y1, p, a)
 
-            for pc, (ins, (X3, Y3, Z3)) in bv.Explorer().explore(fn):
+            for pc, (ins, (X3, Y3, Z3)) in bv.Explorer(timeout_ms=180000, unknown_is_feasible=True).explore(fn):
                 X1, Y1, Z1 = ins
                 A = []
                 P = ref.affine_of(ext(X1), ext(Y1), ext(Z1), "1", A)
@@ -255,7 +255,7 @@ def run_job(job):
             i2, P2 = mkpt("2")
             return i1 + i2, coords(P1 + P2)
 
-        for pc, (ins, (X3, Y3, Z3)) in bv.Explorer().explore(fn_add):
+        for pc, (ins, (X3, Y3, Z3)) in bv.Explorer(timeout_ms=180000, unknown_is_feasible=True).explore(fn_add):
             A = []
             P = ref.affine_of(ext(ins[0]), ext(ins[1]), ext(ins[2]), "1", A)
             Q = ref.affine_of(ext(ins[3]), ext(ins[4]), ext(ins[5]), "2", A)
@@ -265,7 +265,7 @@ def run_job(job):
             i1, P1 = mkpt("1")
             return i1, coords(P1.double())
 
-        for pc, (ins, (X3, Y3, Z3)) in bv.Explorer().explore(fn_dbl):
+        for pc, (ins, (X3, Y3, Z3)) in bv.Explorer(timeout_ms=180000, unknown_is_feasible=True).explore(fn_dbl):
             A = []
             P = ref.affine_of(ext(ins[0]), ext(ins[1]), ext(ins[2]), "1", A)
             decide("double", pc, A, ref.represents(ext(X3), ext(Y3), ext(Z3), ref.add(P, P, "d", A)), dict(zip("X1 Y1 Z1".split(), ins)))
@@ -274,7 +274,7 @@ def run_job(job):
             i1, P1 = mkpt("1")
             return i1, coords(-P1)
 
-        for pc, (ins, (X3, Y3, Z3)) in bv.Explorer().explore(fn_neg):
+        for pc, (ins, (X3, Y3, Z3)) in bv.Explorer(timeout_ms=180000, unknown_is_feasible=True).explore(fn_neg):
             A = []
             inf, x, y = ref.affine_of(ext(ins[0]), ext(ins[1]), ext(ins[2]), "1", A)
             decide("__neg__", pc, A, ref.represents(ext(X3), ext(Y3), ext(Z3), (inf, x, ref.mod(-y))), dict(zip("X1 Y1 Z1".split(), ins)))
@@ -285,7 +285,7 @@ def run_job(job):
             r = P1 == P2
             return i1 + i2, bool(r)
 
-        for pc, (ins, r) in bv.Explorer().explore(fn_eq):
+        for pc, (ins, r) in bv.Explorer(timeout_ms=180000, unknown_is_feasible=True).explore(fn_eq):
             A = []
             i1, x1, y1 = ref.affine_of(ext(ins[0]), ext(ins[1]), ext(ins[2]), "1", A)
             i2, x2, y2 = ref.affine_of(ext(ins[3]), ext(ins[4]), ext(ins[5]), "2", A)
@@ -297,7 +297,7 @@ def run_job(job):
             i1, P1 = mkpt("1")
             return i1, bool(P1 == ec.INFINITY)
 
-        for pc, (ins, r) in bv.Explorer().explore(fn_inf):
+        for pc, (ins, r) in bv.Explorer(timeout_ms=180000, unknown_is_feasible=True).explore(fn_inf):
             A = []
             i1, _, _ = ref.affine_of(ext(ins[0]), ext(ins[1]), ext(ins[2]), "1", A)
             decide("== INFINITY", pc, A, i1 if r else z3.Not(i1), dict(zip("X1 Y1 Z1".split(), ins)))
@@ -310,7 +310,7 @@ def run_job(job):
             return i1, (q.x(), q.y(), P1.x(), P1.y(), coords(P1))
 
         ec.Point.__init__.__globals__  # Point.__init__ asserts contains_point: executed on proxies as well
-        for pc, (ins, r) in bv.Explorer().explore(fn_aff):
+        for pc, (ins, r) in bv.Explorer(timeout_ms=180000, unknown_is_feasible=True).explore(fn_aff):
             A = []
             inf, x, y = ref.affine_of(ext(ins[0]), ext(ins[1]), ext(ins[2]), "1", A)
             if r is None:
@@ -333,7 +333,7 @@ def run_job(job):
             r = P1 + P2
             return i1 + i2, (None if r is ec.INFINITY else (r.x(), r.y()))
 
-        for pc, (ins, r) in bv.Explorer().explore(fn):
+        for pc, (ins, r) in bv.Explorer(timeout_ms=180000, unknown_is_feasible=True).explore(fn):
             A = []
             P = (z3.BoolVal(False), ext(ins[0]), ext(ins[1]))
             Q = (z3.BoolVal(False), ext(ins[2]), ext(ins[3]))
@@ -346,7 +346,7 @@ def run_job(job):
             r = P1.double()
             return i1, (None if r is ec.INFINITY else (r.x(), r.y()))
 
-        for pc, (ins, r) in bv.Explorer().explore(fn2):
+        for pc, (ins, r) in bv.Explorer(timeout_ms=180000, unknown_is_feasible=True).explore(fn2):
             A = []
             P = (z3.BoolVal(False), ext(ins[0]), ext(ins[1]))
             inf, x, y = ref.add(P, P, "d", A)
@@ -393,7 +393,7 @@ def run_job(job):
                             P = ec.PointJacobi(curve, B[0], B[1], 1, n, generator=True)
                         return k, coords(P * k)
 
-                    for pc, (k, (X3, Y3, Z3)) in bv.Explorer().explore(fn):
+                    for pc, (k, (X3, Y3, Z3)) in bv.Explorer(timeout_ms=180000, unknown_is_feasible=True).explore(fn):
                         R = lookup(T, ext(k), 2 * n)
                         decide("__mul__:%s:base%d" % (variant, bi), pc, [], ref.represents(ext(X3), ext(Y3), ext(Z3), R), dict(k=k))
             else:
@@ -407,7 +407,7 @@ def run_job(job):
                     Q = ec.PointJacobi(curve, C[0], C[1], 1, n)
                     return (k1, k2), coords(P.mul_add(k1, Q, k2))
 
-                for pc, ((k1, k2), (X3, Y3, Z3)) in bv.Explorer().explore(fn):
+                for pc, ((k1, k2), (X3, Y3, Z3)) in bv.Explorer(timeout_ms=180000, unknown_is_feasible=True).explore(fn):
                     A = []
                     R = ref.add(lookup(T, ext(k1), n), lookup(TC, ext(k2), n), "ma", A)
                     decide("mul_add:base%d" % bi, pc, A, ref.represents(ext(X3), ext(Y3), ext(Z3), R), dict(k1=k1, k2=k2))
@@ -472,7 +472,7 @@ def run_validation(job):
                 acc = False
             return x, y, acc
 
-        for pc, (x, y, acc) in bv.Explorer().explore(fn):
+        for pc, (x, y, acc) in bv.Explorer(timeout_ms=180000, unknown_is_feasible=True).explore(fn):
             xe, ye = x.ext(W), y.ext(W)
             r = z3.SRem(ye * ye - (xe * xe * xe + a * xe + b), z3.BitVecVal(p, W))
             textbook = z3.And(xe >= 0, xe < p, ye >= 0, ye < p, r == 0)
